@@ -18,7 +18,7 @@ claimed = {
  "C08": ("model_checking", "Gateway direct counts equal the client-side counter model at every quiet state; unsubscribe verdicts predicted; no residue after failed requests and gets.", E1, "6 C08"),
  "C09": ("model_checking", "Use-count / subscriber / eviction-queue / MQ-subscription invariants on every settled state, get-after-subscribe at the MQ boundary, emptiness and gauges at the end.", E1, "6 C09"),
  "C10": ("model_checking", "cid/token pairs of every service request, no connection id in any client frame, token state per connection, on every explored schedule of multi-connection scenarios.", E1, "6 C10"),
- "C11": ("model_checking", "A disconnect injected at every choice point of every base history: conn subscription released, no later request or frame for the connection, cache use counts consistent.", E1 + " (fault at every step = one deviation)", "6 C11"),
+ "C11": ("model_checking", "A disconnect injected at every choice point of every base history: conn subscription released, no later request on behalf of the connection, no effect of late answers on other connections or the cache, cache use counts consistent. Plus an exhaustive input enumeration of WebSocket handshake exits (allow-list x Origin x header-authentication outcome x client behaviour) in a free-running world, after each of which nothing may be left registered.", E1 + " (fault at every step = one deviation)", "6 C11"),
  "C12": ("model_checking", "Exhaustive matcher and diff enumerations against reference functions; every old/new model pair and collection pair through the real reset path; matching set for all pattern lists of a catalogue; reset overlap scenarios under the schedule explorer.", E2 + " + " + E1, "6 C12"),
  "C13": ("model_checking", "Query aliasing with gets in flight in every order, query event request sets, lock release, no event during the lock, convergence per alias rid.", E1, "6 C13"),
  "C14": ("exploration", "Every method string / HTTP path of a finite alphabet family: hygienic subjects equal to the reference parser's expectation, invalid input rejected without traffic; service-supplied invalid rids never followed.", E2, "6 C14"),
